@@ -16,6 +16,7 @@ type inventoryFile struct {
 	Rewrites   map[string]int `json:"rewrites"`
 	Warnings   []string       `json:"warnings"`
 	Unmodelled []string       `json:"unmodelled_sync"`
+	GoStmts    []string       `json:"go_statements"`
 }
 
 func (d *driver) writeEvidence(path string, wall float64, nViol, nKnown int, keys []string, det map[string]any) error {
@@ -81,6 +82,7 @@ func (d *driver) writeEvidence(path string, wall float64, nViol, nKnown int, key
 		"package_level_vars":     inv.PkgVars,
 		"instrumenter_warnings":  inv.Warnings,
 		"unmodelled_sync_sites":  inv.Unmodelled,
+		"go_statements_in_tree":  inv.GoStmts,
 		"determinism_selftest":   det,
 		"truncated":              truncated,
 		"violation_keys":         keys,
